@@ -459,7 +459,11 @@ func descD(v ssa.Value, depth int) string {
 	case *ssa.Index:
 		return descD(x.X, depth+1) + "[" + descD(x.Index, depth+1) + "]"
 	case *ssa.Lookup:
-		return descD(x.X, depth+1) + "[" + descD(x.Index, depth+1) + "]"
+		xd, id := descD(x.X, depth+1), descD(x.Index, depth+1)
+		if id == "rangekey("+xd+")" {
+			return xd + "[*]" // the map's value under its own range key is the range value
+		}
+		return xd + "[" + id + "]"
 	case *ssa.Slice:
 		s := descD(x.X, depth+1) + "["
 		if x.Low != nil {
